@@ -131,6 +131,15 @@ def decOp (hook : Bool) (s : String) : Option OpSpec :=
       | some k, some r => some { op := .append r.chunks (if hook then some k else none), rec? := some r }
       | _, _ => none
     | _ => none
+  -- `F<k>!rec`: the same fault, produced by a really full disk (EFBIG on every write from step k on)
+  -- instead of an injected `Err`; generated only where k is the compressing final step
+  | 'F' :: rest =>
+    match splitOnChar '!' (String.ofList rest) with
+    | [k, r] =>
+      match decNat k, decRec r with
+      | some k, some r => some { op := .append r.chunks (if hook then some k else none), rec? := some r }
+      | _, _ => none
+    | _ => none
   | 'g' :: '!' :: rest => (decRec (String.ofList rest)).map (fun r => { op := .append r.chunks (some LATE), rec? := some r })
   | 'e' :: rest =>
     match splitOnChar '!' (String.ofList rest) with
